@@ -57,6 +57,41 @@ ANCHORS = ["src/prompt_toolkit/application/application.py", "src/prompt_toolkit/
            "src/prompt_toolkit/input/typeahead.py", "src/prompt_toolkit/input/vt100.py",
            "src/prompt_toolkit/key_binding/bindings/cpr.py", "src/prompt_toolkit/input/vt100_parser.py",
            "src/prompt_toolkit/input/posix_utils.py", "src/prompt_toolkit/input/ansi_escape_sequences.py"]
+# functions of /repo whose bodies the Lean models follow line by line AND that the step-by-step
+# correspondence exercises (qualified names as `ast` nests them; hashed and pinned by harness/core.py)
+MODELLED = {
+    "src/prompt_toolkit/application/application.py": [
+        "Application.run_async._run_async",                  # type-ahead replay, `await f`, exit path, store_typeahead
+        "Application.run_async._run_async.read_from_input",  # guard, read_keys, feed_multiple, process_keys
+        "Application.run_async._run_async.auto_flush_input",  # layer 3: deadline = last read + ttimeoutlen
+        "Application.run_async._run_async.flush_input",
+        "Application._request_absolute_cursor_position",     # CPR request only when queue empty and not done
+    ],
+    "src/prompt_toolkit/key_binding/key_processor.py": [
+        "KeyProcessor.reset", "KeyProcessor.feed", "KeyProcessor.feed_multiple",
+        "KeyProcessor.process_keys", "KeyProcessor.process_keys.not_empty", "KeyProcessor.process_keys.get_next",
+        "KeyProcessor._process", "KeyProcessor._process_cpr_response", "KeyProcessor._call_handler",
+        "KeyProcessor.empty_queue", "KeyProcessor._start_timeout.wait", "KeyProcessor._start_timeout.flush_keys",
+    ],
+    "src/prompt_toolkit/input/typeahead.py": ["store_typeahead", "get_typeahead"],
+    "src/prompt_toolkit/input/vt100.py": ["Vt100Input.read_keys"],
+    "src/prompt_toolkit/input/vt100_parser.py": [
+        "Vt100Parser.feed", "Vt100Parser._call_handler", "Vt100Parser._input_parser_generator",
+        "Vt100Parser._get_match", "_IsPrefixOfLongerMatchCache.__missing__",
+    ],
+    "src/prompt_toolkit/key_binding/bindings/cpr.py": ["load_cpr_bindings._"],
+    "src/prompt_toolkit/renderer.py": ["Renderer.report_absolute_cursor_row", "Renderer.waiting_for_cpr"],
+    "src/prompt_toolkit/key_binding/bindings/basic.py": [
+        "load_basic_bindings._newline2",                     # c-j feeds ControlM to the front of the queue
+        "load_basic_bindings._paste",                        # bracketed paste: CR/CRLF -> LF, insert_text
+    ],
+    "src/prompt_toolkit/shortcuts/prompt.py": [
+        "PromptSession._create_prompt_bindings._accept_input", "PromptSession._create_prompt_bindings._keyboard_interrupt",
+        "PromptSession._create_prompt_bindings.ctrl_d_condition", "PromptSession._create_prompt_bindings._eof",
+    ],
+    "src/prompt_toolkit/buffer.py": ["Buffer.validate", "Buffer.validate_and_handle"],
+    "src/prompt_toolkit/validation.py": ["_ValidatorFromCallable.validate"],
+}
 LEVEL_TEXT = ("Lean 4 theorems over five executable models around the accept boundary, for EVERY schedule of writes / reads "
               "of any size / starts / timer expiries / finishes and every CPR placement. Layer 1 (process_keys with "
               "the is_done gate, c-j re-feed, run_async type-ahead replay / read guard / CPR wait of the exit path / "
